@@ -1,6 +1,7 @@
 import Pw.Core.Proto
 import Pw.C01.Guard
 import Pw.C10.Spec
+import Pw.C10.SepAll
 open Proto
 
 /-! Driver handlers of C10.
@@ -76,26 +77,20 @@ def handleSep : Handler := fun a =>
   fmtBool (MG.mSeparated G X Y Z) ++ "/" ++ fmtBool (MG.mSeparated (convMG G) X Y Z) ++ "/" ++
     fmtBool (MG.mSeparated { G with bi := [] } X Y Z)
 
-/-- all (X,Y,Z) with X,Y non-empty, pairwise disjoint, over the given nodes -/
-def queries : List Nat → List (List Nat × List Nat × List Nat)
-  | [] => [([], [], [])]
-  | v :: vs =>
-    (queries vs).flatMap fun (X, Y, Z) => [(X, Y, Z), (v :: X, Y, Z), (X, v :: Y, Z), (X, Y, v :: Z)]
-
+/-- `sepAllBad` (complete by `C10.sepAllBad_none`) decides; on agreement the answer also counts the
+    queries and those on which the bidirected edges matter -/
 def handleSepAll : Handler := fun a =>
   let G := a.graph
   let R : MG := { nodes := List.range (a.nat "RN"), dir := a.pairs "RE" }
   let G0 : MG := { G with bi := [] }
-  let qs := (queries G.nodes).filter fun (X, Y, _) => X ≠ [] && Y ≠ []
-  let rec go : List (List Nat × List Nat × List Nat) → Nat → Nat → String
-    | [], k, nt => "ok:" ++ toString k ++ ":" ++ toString nt
-    | (X, Y, Z) :: rest, k, nt =>
-      let g := MG.mSeparated G X Y Z
-      let r := MG.mSeparated R X Y Z
-      if g != r then
-        "bad:" ++ fmtSet X ++ "|" ++ fmtSet Y ++ "|" ++ fmtSet Z ++ ":" ++ fmtBool g ++ ":" ++ fmtBool r
-      else go rest (k + 1) (if MG.mSeparated G0 X Y Z != g then nt + 1 else nt)
-  go qs 0 0
+  match sepAllBad G R with
+  | some (X, Y, Z) =>
+    "bad:" ++ fmtSet X ++ "|" ++ fmtSet Y ++ "|" ++ fmtSet Z ++ ":" ++ fmtBool (MG.mSeparated G X Y Z) ++
+      ":" ++ fmtBool (MG.mSeparated R X Y Z)
+  | none =>
+    let qs := properQueries G.nodes
+    "ok:" ++ toString qs.length ++ ":" ++
+      toString (qs.countP fun q => MG.mSeparated G0 q.1 q.2.1 q.2.2 != MG.mSeparated G q.1 q.2.1 q.2.2)
 
 def handlers : List (String × Handler) :=
   [("c10conv", handleConv), ("c10valid", handleValid), ("c10sep", handleSep), ("c10sepall", handleSepAll)]
